@@ -146,3 +146,77 @@ func verifHarnessC18CopyInOut() {
 	assert("copy-out", bytesEq(got2.Value, orig))
 	reach("end")
 }
+
+// ---------- C14: a second request running in the window between the first one's audit record and its critical section ----------
+
+var verifInterleave struct {
+	on    bool
+	d     *DB
+	opB   int
+	nameB string
+	verB  api.SecretVersion
+	valB  []byte
+	resB  verifOpResult
+	ran   bool
+}
+
+// called by the sink after a successful Sync: another client's whole request may run here (unless the caller holds the DB lock,
+// in which case the other request would simply wait)
+func verifInterleaveHook() {
+	if !verifInterleave.on || verifInterleave.ran {
+		return
+	}
+	if held(&verifInterleave.d.mu) {
+		return
+	}
+	if !nondetBool("other.request.runs.now") {
+		return
+	}
+	verifInterleave.ran = true
+	verifInterleave.resB = verifCallOp(verifInterleave.d, verifInterleave.opB, verifSuperuser(), verifInterleave.nameB, verifInterleave.verB, verifInterleave.valB)
+}
+
+func verifC14Interleave(opA int) {
+	k := verifSymKV(param("secrets"), param("versions"), "")
+	assume(verifKVInv(k))
+	// two puts happen here: the counter bound of the claim (no wrap at 2^32-1) must leave room for both
+	assume(mapAll(k.secrets, func(_ string, s *secret) bool { return s.LatestVersion < 0xFFFFFFFE }))
+	d := verifDB(k, &verifSink{})
+	name := nondetString("name")
+	verA := api.SecretVersion(nondetU32("versionA"))
+	valA := nondetSeq("valA")
+	verifInterleave.on, verifInterleave.d, verifInterleave.ran = true, d, false
+	verifInterleave.opB = []int{opPut, opActivate, opDeleteVersion, opDelete}[nondetChoice("opB", 4)]
+	verifInterleave.nameB = name // same secret: the interesting case
+	verifInterleave.verB = api.SecretVersion(nondetU32("versionB"))
+	verifInterleave.valB = nondetSeq("valB")
+
+	resA := verifCallOp(d, opA, verifSuperuser(), name, verA, valA)
+
+	verifInterleave.on = false
+	assert("state-consistent-after-both", verifKVInv(k))
+	resB := verifInterleave.resB
+	s := k.secrets[name]
+	if verifInterleave.ran && opA == opPut && verifInterleave.opB == opPut && resA.err == nil && resB.err == nil {
+		// B ran first (inside A's window), then A: both acknowledged values are there, under their own numbers
+		if s == nil {
+			assert("both-puts-retrievable", false)
+			return
+		}
+		assert("both-puts-retrievable", and(mapHas(s.Versions, resA.version), s.Versions[resA.version] == byteString(valA),
+			mapHas(s.Versions, resB.version), s.Versions[resB.version] == byteString(verifInterleave.valB)))
+		assert("different-values-different-versions", implies(byteString(valA) != byteString(verifInterleave.valB), resA.version != resB.version))
+	}
+	if opA == opGet && resA.value != nil {
+		// the pair returned belongs together in the final state or was deleted meanwhile (B ran before A's read, so it is the final state)
+		if s != nil {
+			assert("get-pairs-number-with-its-own-bytes", implies(mapHas(s.Versions, resA.value.Version), s.Versions[resA.value.Version] == byteString(resA.value.Value)))
+		}
+	}
+	reach("end")
+}
+
+func verifHarnessC14InterleavePut()           { verifC14Interleave(opPut) }
+func verifHarnessC14InterleaveActivate()      { verifC14Interleave(opActivate) }
+func verifHarnessC14InterleaveDeleteVersion() { verifC14Interleave(opDeleteVersion) }
+func verifHarnessC14InterleaveGet()           { verifC14Interleave(opGet) }
